@@ -147,9 +147,12 @@ PROPS = {
         "Proof at transaction level on the chain model: with swaps disabled a direct swap, ANY route containing the pool and a "
         "single-asset deposit (through its internal swap sub-message) are rejected; deposits disabled blocks every deposit shape; "
         "withdrawals disabled blocks withdrawals; rejected => no effect; a toggle changes only the named flags of the named pool; "
-        "pricing ignores the status; new pools start enabled. The relational frame clause ('all other operations behave exactly as "
-        "before') is proved per ingredient (handlers test only their own flag, pricing ignores status), not as one relational "
-        "theorem — that clause is partial."),
+        "pricing ignores the status; new pools start enabled. THE FRAME as one theorem (C17_switches_change_nothing_else): setting "
+        "the switches of any pool T to any status changes nothing else — every swap, route, deposit (single-asset first leg "
+        "included) or withdrawal, on T or on any other pool, whose own switch is on before and after, returns the same result "
+        "(same error or same messages and same state up to the changed switches), for all worlds, senders, funds and messages; "
+        "stated at handler level (pm_execute), the sub-messages being the same they run the same. Monitor mon_C17: no accepted "
+        "operation with its switch off in any observed history."),
     "C18": P("Props/C18.v", [("epoch", 320, 6000)],
         "Full proof: every clause of C18 (failure before genesis, definedness from genesis on, id = floor((now-genesis)/duration), "
         "monotonicity, +1 per duration, start(id) = genesis + id*duration without wrap-around, now in [start(cur), start(cur+1)), "
